@@ -177,23 +177,20 @@ func pruneHashKeyedUpto(
 	batch := database.NewBatch()
 	// batch is rotated below, so close whichever one is current at return.
 	defer func() { _ = batch.Close() }()
-	// Clean up the carve-out left by the previous PruneUpto call.
+	// The hash→number mapping of a block is deleted one iteration late, when its
+	// successor is processed: wherever the loop stops (completion or cancellation) the
+	// mapping of the last pruned block survives - the carve-out resolved by
+	// StateAtBlockHash(parentHash of the oldest retained block). The carve-out left at
+	// start-1 by the previous PruneUpto call is cleaned up the same way, when block
+	// start is processed: a sweep cancelled before its first block deletes nothing.
+	var prevBlockHash *felt.Felt
 	if start > 0 {
 		blockHash, err := core.GetBlockHeaderHashByNumber(database, start-1)
 		if err != nil {
 			return 0, err
 		}
-		if err := core.DeleteBlockHeaderNumberByHash(batch, blockHash); err != nil {
-			return 0, err
-		}
+		prevBlockHash = blockHash
 	}
-
-	// The hash→number mapping of a block is deleted one iteration late, when its
-	// successor is processed: wherever the loop stops (completion or cancellation) the
-	// mapping of the last pruned block survives - the carve-out resolved by
-	// StateAtBlockHash(parentHash of the oldest retained block). It is cleaned up by
-	// the next PruneUpto call via the start-1 branch above.
-	var prevBlockHash *felt.Felt
 
 	blockNum := start
 	for ; blockNum < endExclusive; blockNum++ {
